@@ -13,7 +13,6 @@ package frr
 import (
 	"errors"
 	"fmt"
-	"net"
 	"os"
 	"sort"
 	"strings"
@@ -23,9 +22,9 @@ import (
 
 	"github.com/go-kit/log"
 	"go.universe.tf/metallb/internal/bgp"
-	"go.universe.tf/metallb/internal/bgp/community"
 	metallbconfig "go.universe.tf/metallb/internal/config"
 	"go.universe.tf/metallb/internal/logging"
+	"go.universe.tf/metallb/internal/verifsim/bgpgen"
 	"go.universe.tf/metallb/internal/verifsim/bgpmodel"
 	"go.universe.tf/metallb/internal/verifsim/choice"
 	"go.universe.tf/metallb/internal/verifsim/frrinterp"
@@ -279,129 +278,11 @@ func (w *fworld) checkApplied(text string) {
 
 // ---- workload ----
 
-var prefixUniverse = []string{"172.16.1.0/24", "172.16.1.10/32", "172.16.2.0/24", "10.10.0.0/16", "fc00:f853:ccd:e793::/64", "fc00:f853:ccd:e793::10/128", "2001:db8::/48"}
-var commUniverse = []string{"1111:2222", "3333:4444", "65000:1"}
-var largeUniverse = []string{"1:2:3", "4000000000:5:6"}
-
 type ownedSession struct {
 	key   string
 	ms    *bgpmodel.Session
 	sess  bgp.Session
 	alive bool
-}
-
-func (w *fworld) genAdvs() ([]bgpmodel.Adv, []*bgp.Advertisement) {
-	n := w.pick(5, "nadvs")
-	var ms []bgpmodel.Adv
-	var as []*bgp.Advertisement
-	for i := 0; i < n; i++ {
-		p := prefixUniverse[w.pick(len(prefixUniverse), "prefix")]
-		lp := []uint32{0, 100, 200}[w.pick(3, "localpref")]
-		if w.pick(10, "conflicting localpref") != 0 {
-			// mostly keep one local preference per prefix inside a session (a conflict makes the call fail)
-			for _, x := range ms {
-				if x.Prefix == p {
-					lp = x.LocalPref
-				}
-			}
-		}
-		var comms, large []string
-		var cs []community.BGPCommunity
-		for _, c := range commUniverse {
-			if w.pick(3, "community") == 0 {
-				comms = append(comms, c)
-				x, _ := community.New(c)
-				cs = append(cs, x)
-			}
-		}
-		for _, c := range largeUniverse {
-			if w.pick(4, "large community") == 0 {
-				large = append(large, c)
-				x, err := community.New("large:" + c)
-				if err != nil {
-					panic(err)
-				}
-				cs = append(cs, x)
-			}
-		}
-		_, ipn, _ := net.ParseCIDR(p)
-		ms = append(ms, bgpmodel.Adv{Prefix: ipn.String(), LocalPref: lp, Comms: comms, Large: large})
-		as = append(as, &bgp.Advertisement{Prefix: ipn, LocalPref: lp, Communities: cs})
-	}
-	return ms, as
-}
-
-func secs(d *time.Duration) int64 {
-	if d == nil {
-		return -1
-	}
-	return int64(*d / time.Second)
-}
-
-func (w *fworld) genSession(slot int, sub int) (bgp.SessionParameters, *bgpmodel.Session) {
-	routers := []struct {
-		asn uint32
-		vrf string
-		id  string
-	}{{64512, "", "10.1.1.254"}, {64512, "red", ""}, {64513, "", ""}}
-	r := routers[w.pick(len(routers), "router")]
-	p := bgp.SessionParameters{MyASN: r.asn, VRFName: r.vrf, CurrentNode: "node1", SessionName: fmt.Sprintf("s%d-%d", slot, sub)}
-	if r.id != "" {
-		p.RouterID = net.ParseIP(r.id)
-	}
-	// one peer address per (submitter, slot): neighbors never collide
-	switch w.pick(3, "peer kind") {
-	case 0:
-		p.PeerAddress = fmt.Sprintf("10.2.%d.%d", slot+1, 10+sub)
-	case 1:
-		p.PeerAddress = fmt.Sprintf("fc00:%d::%d", slot+1, 10+sub)
-	case 2:
-		p.PeerInterface = fmt.Sprintf("eth%d%d", slot+1, sub)
-	}
-	if w.pick(2, "ebgp") == 0 {
-		p.PeerASN = r.asn
-	} else {
-		p.PeerASN = 64600 + uint32(w.pick(3, "peer asn"))
-	}
-	if w.pick(6, "dynamic asn") == 0 {
-		p.PeerASN = 0
-		p.DynamicASN = []string{"internal", "external"}[w.pick(2, "dynamic")]
-	}
-	if w.pick(3, "port") == 0 {
-		p.PeerPort = 1179
-	}
-	if w.pick(2, "timers") == 0 {
-		h, k := 90*time.Second, 30*time.Second
-		p.HoldTime, p.KeepAliveTime = &h, &k
-	}
-	if w.pick(4, "connect time") == 0 {
-		c := 10 * time.Second
-		p.ConnectTime = &c
-	}
-	if w.pick(3, "password") == 0 {
-		p.Password = "secret" + fmt.Sprint(slot)
-	}
-	if w.pick(4, "source") == 0 && p.PeerInterface == "" {
-		p.SourceAddress = net.ParseIP("10.1.1.254")
-	}
-	p.EBGPMultiHop = w.pick(4, "multihop") == 0
-	p.GracefulRestart = w.pick(5, "graceful") == 0
-	if w.pick(4, "bfd") == 0 {
-		p.BFDProfile = "fast"
-	}
-	if p.PeerInterface == "" && w.pick(5, "disable mp") == 0 {
-		p.DisableMP = true
-	}
-	ms := &bgpmodel.Session{MyASN: p.MyASN, RouterID: r.id, VRF: p.VRFName, PeerASN: p.PeerASN, DynamicASN: p.DynamicASN, PeerAddr: p.PeerAddress, PeerIface: p.PeerInterface,
-		Port: p.PeerPort, HoldTime: secs(p.HoldTime), KeepAlive: secs(p.KeepAliveTime), Password: p.Password, EBGPMultiHop: p.EBGPMultiHop, BFDProfile: p.BFDProfile,
-		GracefulRestart: p.GracefulRestart, DisableMP: p.DisableMP}
-	if p.ConnectTime != nil {
-		ms.ConnectTime = int64(*p.ConnectTime / time.Second)
-	}
-	if p.SourceAddress != nil {
-		ms.SrcAddr = p.SourceAddress.String()
-	}
-	return p, ms
 }
 
 func (w *fworld) submitter(slot int, sm bgp.SessionManager) {
@@ -424,7 +305,7 @@ func (w *fworld) submitter(slot int, sm bgp.SessionManager) {
 			if nsess >= 3 {
 				continue
 			}
-			params, ms := w.genSession(slot, nsess)
+			params, ms := bgpgen.Session(w.pick, slot, nsess, false)
 			nsess++
 			key := fmt.Sprintf("%d/%d", slot, nsess)
 			w.pending[me] = func(st *bgpmodel.State) { st.Sessions[key] = ms }
@@ -443,22 +324,12 @@ func (w *fworld) submitter(slot int, sm bgp.SessionManager) {
 			if !o.alive {
 				continue
 			}
-			madvs, advs := w.genAdvs()
+			madvs, advs := bgpgen.Advs(w.pick, true)
 			if i > 0 && w.pick(6, "identical resubmission") == 0 {
 				madvs = nil // keep what is there: re-create identical advertisements
 				advs = nil
 				for _, a := range o.ms.Advs {
-					_, ipn, _ := net.ParseCIDR(a.Prefix)
-					var cs []community.BGPCommunity
-					for _, c := range a.Comms {
-						x, _ := community.New(c)
-						cs = append(cs, x)
-					}
-					for _, c := range a.Large {
-						x, _ := community.New("large:" + c)
-						cs = append(cs, x)
-					}
-					advs = append(advs, &bgp.Advertisement{Prefix: ipn, LocalPref: a.LocalPref, Communities: cs})
+					advs = append(advs, bgpgen.ToAdvertisement(a))
 					madvs = append(madvs, a)
 				}
 				w.stat("probe.identical-resubmission")
@@ -504,13 +375,19 @@ func (w *fworld) submitter(slot int, sm bgp.SessionManager) {
 			m := w.marker
 			w.s.Event("%s: SyncExtraInfo(marker %d)", me, m)
 			if err := sm.SyncExtraInfo(fmt.Sprintf("! marker %d", m)); err != nil {
-				panic(err)
+				w.violate("C14", "consistent-request-refused", "SyncExtraInfo failed: "+err.Error())
+				w.violate("C19", "consistent-request-refused", "SyncExtraInfo failed: "+err.Error())
+				w.workDone++
+				return
 			}
 		default:
 			ri := uint32(100 + w.pick(3, "bfd interval"))
 			w.s.Event("%s: SyncBFDProfiles", me)
 			if err := sm.SyncBFDProfiles(map[string]*metallbconfig.BFDProfile{"fast": {Name: "fast", ReceiveInterval: &ri}}); err != nil {
-				panic(err)
+				w.violate("C14", "consistent-request-refused", "SyncBFDProfiles failed: "+err.Error())
+				w.violate("C19", "consistent-request-refused", "SyncBFDProfiles failed: "+err.Error())
+				w.workDone++
+				return
 			}
 		}
 	}
@@ -621,6 +498,9 @@ func gfrrRun(env *runner.Env) (res *runner.Result) {
 		defer func() {
 			if r := recover(); r != nil {
 				if m := fmt.Sprint(r); strings.Contains(m, "deadlock") && strings.Contains(m, "bubble") {
+					if res.Steps == 0 {
+						panic("the bubble ended before the simulation ran: " + m)
+					}
 					return
 				}
 				panic(r)
